@@ -163,6 +163,7 @@ class Trace:
                     tr.events.append(("option", call.name, o, call.args[2] if len(call.args) > 2 else None, s.copy(), call.site))
             elif p == "block_handler::extending_splice":
                 tr.events.append(("splice", call.args, s.copy(), call.site))
+                s.ghost[("inj", "spliced")] = True
             elif p == "core::cmp::min" and call.ctx.body["path"].startswith("block_handler::"):
                 tr.events.append(("min", call.args, s.copy(), call.site))
                 s.ghost["min_args"] = tuple(call.args)
@@ -181,6 +182,20 @@ class Trace:
                     s.ghost[("inj", "buffer-taken")] = True
                     tr.events.append(("buffer-take", I_.read(s, a.place), call.site))
         I.call_hooks.append(call_hook)
+        gfo = find_body(prog, "packet::Packet::get_first_option")
+        if gfo is not None:
+            def gfo_hook(I_, ctx, outs):
+                tp = None
+                for s_, rv_ in outs:
+                    tp = opt_name(s_.cells.get((ctx.fid, 2)))
+                    if tp in ("Block1", "Block2") and isinstance(rv_, EnumV) and len(rv_.variants) == 1:
+                        s_.ghost["has_" + tp] = list(rv_.variants)[0] == 1
+            I.return_hooks[gfo["id"]] = gfo_hook
+            I.no_join_bodies.add(gfo["id"])
+        for nm in ("packet::Packet::get_first_option_as",):
+            b_ = find_body(prog, nm)
+            if b_ is not None:
+                I.no_join_bodies.add(b_["id"])
         if setup is not None:
             setup(self, I, st)
         self.st0 = st
